@@ -441,7 +441,13 @@ func (p *Parser) parseStrictTermArg(curObj *Object) (*Object, parseResult) {
 	_, _ = p.nextOpcode()
 	termObj = p.objTree.newObject(nextOp, p.tableHandle)
 	termObj.amlOffset = curOffset
+
+	// Attach termObj to curObj while its args are parsed so that method calls
+	// nested in its args can be looked up from its scope; the caller attaches
+	// the returned object for good.
+	p.objTree.append(curObj, termObj)
 	res = p.parseObjectArgs(termObj)
+	p.objTree.detach(curObj, termObj)
 	if p.r.EOF() {
 		p.popPkgEnd()
 	}
